@@ -34,7 +34,13 @@ def url_string(seed, rnd, i):
     user = r.choice(["", "u@", "us%20er:p%40w@"])
     path = "/" + "/".join(r.choice(["a", "файл", "x y", "%E6%97%A5%E6%9C%AC%E8%AA%9E.txt", "b.tar.gz", "é%20é"]) for _ in range(r.randint(1, 3)))
     q = r.choice(["", "?k=v&a=%D0%BF%D1%80", "?x=1&x=2"])
+    if i % 4 == 3:
+        # an EMPTY host inside a non-empty authority (the one case where the lazily split netloc needs a fix-up after splitting)
+        return "%s//%s:%d%s%s#r%d-%d" % (r.choice(["x:", "", "y:"]), r.choice(["", "u@", "u:p@"]), r.choice([77, 8080, 80]), path, q, rnd, i)
     return "http://%s%s%s%s%s#r%d-%d" % (user, host, port, path, q, rnd, i)
+
+
+NETACC = ["raw_host", "host", "host_subcomponent", "host_port_subcomponent", "explicit_port", "raw_user", "authority"]
 
 
 def step(op, s, k):
@@ -64,15 +70,25 @@ def step(op, s, k):
         if op == 7:
             v = u.with_host(["H%d.example" % (k % 5), "É%d.com" % (k % 3), "::%d" % (k % 9 + 1)][k % 3]).with_port([None, 80, 8443][k % 3])
             return str(v) + repr(v.raw_host)
-        v = u.join(URL(["../x", "?q=%d" % (k % 4), "y/z", "#f"][k % 4])).parent
-        return str(v) + repr(v.name)
+        if op == 8:
+            v = u.join(URL(["../x", "?q=%d" % (k % 4), "y/z", "#f"][k % 4])).parent
+            return str(v) + repr(v.name)
+        # op 9 / 10: FIRST netloc-accessor reads on objects shared between the threads that were NOT pre-filled by the parser:
+        # URL(s, encoded=True) and a derived URL (both come out of lru-cached constructors, so every thread gets the same object)
+        if op == 9:
+            v = URL(s, encoded=True)
+        else:
+            v = (u / "seg").with_fragment(None)
+        j = k % len(NETACC)
+        return repr([getattr(v, a) for a in NETACC[j:] + NETACC[:j]]) + v.human_repr()
     except Exception as e:  # noqa
         return "!" + type(e).__name__
 
 
 def program(seed, t, rounds, per_round):
     r = random.Random(seed * 7919 + t)
-    return [[(r.randrange(9), i, r.randrange(1000)) for i in range(per_round)] for _ in range(rounds)]
+    # ops 9 and 10 get extra weight on the empty-host strings (i % 4 == 3)
+    return [[((r.choice([9, 10, 9, 10, 1, 5]) if (i % 4 == 3 and r.random() < 0.8) else r.randrange(11)), i, r.randrange(1000)) for i in range(per_round)] for _ in range(rounds)]
 
 
 def sequential(seed, nthreads, rounds, per_round):
